@@ -1720,6 +1720,19 @@ func ruleBatchValidatedBeforeStored(r *Run) {
 			}
 			return false
 		}
+		// … or the batch arrives already decoded, as a slice parameter the function ranges over
+		for _, p := range f.Params {
+			if _, isSlice := p.Type().Underlying().(*types.Slice); !isSlice || strings.HasSuffix(p.Type().String(), "[]byte") {
+				continue
+			}
+			for _, ref := range *p.Referrers() {
+				switch ref.(type) {
+				case *ssa.Range, *ssa.IndexAddr:
+					decodes = true
+					decoded[p] = true
+				}
+			}
+		}
 		if !decodes {
 			continue
 		}
